@@ -167,20 +167,29 @@ theorem C12_bezier_build_wellformed (pts : List (P2 R)) (bz : Bezier R) (h : Bez
 /-- non-vacuity of `C12_bezier_build_wellformed`: two points build (every scalar type) -/
 example : ∃ bz, Bezier.build ([⟨0, 0⟩, ⟨0, 1⟩] : List (P2 R)) = .ok bz := ⟨_, rfl⟩
 
-/-- **C12** a slab / fault accepted by the parser is well-formed -/
+/-- **C12** a slab / fault accepted by the parser is well-formed, up to its `mass conserving` temperature models: `parse_entries` of
+that model does not establish `MassConserving.WellFormed` (one migration time per ridge when the subducting velocities are per point;
+nothing about the spline index), so that part is a hypothesis (`f.TempsWellFormed`; it holds trivially of a feature without the model) -/
 theorem C12_parse_line_wellformed (ctx : Ctx R) (isFault : Bool) (c : Cur) (tags tags' : List String) (cull : Bool)
-    (f : LineFeature R) (h : parseLine ctx isFault c tags cull = .ok (f, tags')) : f.WellFormed :=
-  parseLine_post ctx isFault c tags cull (f, tags') h
+    (f : LineFeature R) (h : parseLine ctx isFault c tags cull = .ok (f, tags')) (ht : f.TempsWellFormed) : f.WellFormed :=
+  parseLine_post ctx isFault c tags cull (f, tags') h ht
+
+/-- a feature none of whose segments carries a slab-only temperature model satisfies the hypothesis of `C12_parse_line_wellformed` -/
+theorem C12_temps_wellformed_of_basic (f : LineFeature R)
+    (hb : ∀ sec ∈ f.sections, ∀ s ∈ sec, ∀ m ∈ s.temps, ∃ b, m = SegTemp.basic b) : f.TempsWellFormed := by
+  intro sec hsec s hs m hm
+  obtain ⟨b, rfl⟩ := hb sec hsec s hs m hm
+  trivial
 
 /-- **C12** with C13: queries on a parsed slab / fault never index out of range -/
 theorem C12_parsed_line_safe (ctx : Ctx R) (isFault : Bool) (c : Cur) (tags tags' : List String) (cull : Bool)
-    (f : LineFeature R) (h : parseLine ctx isFault c tags cull = .ok (f, tags')) (qctx : Ctx R) (q : Query R)
+    (f : LineFeature R) (h : parseLine ctx isFault c tags cull = .ok (f, tags')) (ht : f.TempsWellFormed) (qctx : Ctx R) (q : Query R)
     (hq : q.worldT () ≠ .error .internal) :
     f.covers qctx q ≠ .error .internal ∧
       (∀ (ps : List Req) (bs : List (List R)), Fits ps bs → ∀ g : G,
         f.apply qctx q (ps.zip (entries ps)) bs.flatten g ≠ .error .internal) ∧
       f.distanceToPlane qctx q ≠ .error .internal := by
-  have hw := C12_parse_line_wellformed ctx isFault c tags tags' cull f h
+  have hw := C12_parse_line_wellformed ctx isFault c tags tags' cull f h ht
   exact ⟨(f.covers_safe hw qctx q).noInt, fun ps bs hfit g => (Feature.line f).apply_noInt hw qctx q hq ps bs hfit g,
     f.distanceToPlane_noInt hw qctx q⟩
 
@@ -258,18 +267,19 @@ example : (∃ r, parseArea (R := R) c12Ctx 0 "continental plate" ⟨c12AreaDoc,
 
 /-- **C12** every feature of a world accepted by `parseWorld` is well-formed -/
 theorem C12_parse_world_wellformed (decl : Json) (version : String) (doc : Json) (cull : Bool) (st st' : List (SurfaceAux R))
-    (p : Parsed R) (h : parseWorld decl version doc cull st = .ok (p, st')) (haux : AuxOk st) (hschema : SchemaWorldFacts decl doc) :
+    (p : Parsed R) (h : parseWorld decl version doc cull st = .ok (p, st')) (haux : AuxOk st) (hschema : SchemaWorldFacts decl doc)
+    (ht : p.world.TempsWellFormed) :
     p.world.WellFormed :=
-  (parseWorld_post decl version doc cull st p st' haux h).1 hschema
+  (parseWorld_post decl version doc cull st p st' haux h).1 hschema ht
 
 /-- **C12 + C13** no query on a successfully constructed world indexes out of range -/
 theorem C12_constructed_world_safe (decl : Json) (version : String) (doc : Json) (cull : Bool) (st st' : List (SurfaceAux R))
     (p : Parsed R) (h : parseWorld decl version doc cull st = .ok (p, st')) (haux : AuxOk st) (hschema : SchemaWorldFacts decl doc)
-    (depth : R) (ps : List Req) (g : G) :
+    (ht : p.world.TempsWellFormed) (depth : R) (ps : List Req) (g : G) :
     (∀ pt : P3 R, p.world.props3 pt depth ps g ≠ .error .internal) ∧
     (∀ pt : P2 R, p.world.props2 pt depth ps g ≠ .error .internal) ∧
     (∀ (pt : P3 R) (name : String), p.world.distanceToPlane pt depth name ≠ .error .internal) :=
-  C13_world_no_internal p.world (C12_parse_world_wellformed decl version doc cull st st' p h haux hschema) depth ps g
+  C13_world_no_internal p.world (C12_parse_world_wellformed decl version doc cull st st' p h haux hschema ht) depth ps g
 
 /-! #### a concrete world -/
 
